@@ -329,9 +329,9 @@ func (*Ufs) Walk(req *SrvReq) {
 	fid := req.Fid.Aux.(*ufsFid)
 	tc := req.Tc
 
-	err := fid.stat()
-	if err != nil {
-		req.RespondError(err)
+	/* the source fid may be shared by concurrent walks: look, don't touch */
+	if _, serr := os.Lstat(fid.path); serr != nil {
+		req.RespondError(toError(serr))
 		return
 	}
 
